@@ -23,13 +23,15 @@ type workerCheckpoint struct {
 func newCheckpoint(stats SamplingStats) checkpoint {
 	workers := make([]workerCheckpoint, 0, len(stats.Workers))
 	for _, w := range stats.Workers {
-		// no need to resume recent jobs after restart. On the other hand, retry jobs will resume from
-		// failed heights map. it leaves only catchup jobs to be stored and resumed
-		if w.JobType == catchupJob {
+		// retry jobs will resume from failed heights map. Catchup jobs are stored and resumed. Recent
+		// jobs have to be stored too: the catchup cursor may already have moved past the height of a
+		// recent job that is still running, so nothing else would sample that height after a restart.
+		// They are resumed as catchup jobs.
+		if w.JobType == catchupJob || w.JobType == recentJob {
 			workers = append(workers, workerCheckpoint{
 				From:    w.Curr,
 				To:      w.To,
-				JobType: w.JobType,
+				JobType: catchupJob,
 			})
 		}
 	}
